@@ -1,11 +1,98 @@
 import EpdVerif.Drivers.Dsl
 import EpdVerif.Gen.Epd2in13b_v4
-/-! model of `src/epd2in13b_v4/mod.rs` (STUB: programs not yet transcribed) -/
+/-! model of `src/epd2in13b_v4/mod.rs` (and the byte builders of its `command.rs`) -/
 namespace EpdVerif.Drivers.Epd2in13b_v4
 open EpdVerif
 open EpdVerif.Gen.Epd2in13b_v4
 
-def prog (_f : Feat) (_d : DState) : Op → Option (List Act)
+def W : Act := .wait IS_BUSY_LOW
+
+/-! ## `command.rs` helpers -/
+
+/-- `BitField::set_bit` on a `u8` -/
+def setBit (v i : Nat) (b : Bool) : Nat :=
+  (v &&& (0xFF ^^^ (1 <<< i))) ||| (if b then 1 <<< i else 0)
+
+/-- `BitField::set_bits(lo..hi, x)` on a `u8` -/
+def setBits (v lo hi x : Nat) : Nat :=
+  (v &&& (0xFF ^^^ (((1 <<< (hi - lo)) - 1) <<< lo))) ||| (x <<< lo)
+
+/-- `DriverOutput::to_bytes` -/
+def driverOutputBytes (scanIsLinear scanG0IsFirst scanDirIncr : Bool) (width : Nat) : Bytes :=
+  [u8 width, shr8 width 8,
+   u8 (setBit (setBit (setBit 0 0 (!scanDirIncr)) 1 (!scanG0IsFirst)) 2 (!scanIsLinear))]
+
+/-- `BorderWaveForm::to_u8` -/
+def borderWaveForm (vbd fixLevel gsTrans : UInt8) : UInt8 :=
+  u8 (setBits (setBits (setBits 0 6 8 vbd.toNat) 4 6 fixLevel.toNat) 0 2 gsTrans.toNat)
+
+/-- `DisplayUpdateControl::to_bytes` -/
+def displayUpdateControlBytes (redRamOption bwRamOption : UInt8) (sourceOutputMode : Bool) : Bytes :=
+  [(redRamOption <<< 4) ||| bwRamOption, if sourceOutputMode then 128 else 0]
+
+/-! ## private methods of the driver -/
+
+/-- `set_ram_area`: no wait, no asserts -/
+def setRamArea (sx sy ex ey : Nat) : List Act :=
+  cmdData Command.SetRamXAddressStartEndPosition [shr8 sx 3, shr8 ex 3] ++
+  cmdData Command.SetRamYAddressStartEndPosition [u8 sy, shr8 sy 8, u8 ey, shr8 ey 8]
+
+def setRamAddressCounters (x y : Nat) : List Act :=
+  [W] ++ cmdData Command.SetRamXAddressCounter [shr8 x 3] ++
+  cmdData Command.SetRamYAddressCounter [u8 y, shr8 y 8]
+
+/-- `buffer_len(WIDTH, HEIGHT)` -/
+def bufferLen : Nat := (WIDTH + 7) / 8 * HEIGHT
+
+def init : List Act :=
+  [.reset 10000 10000, W, .cmd Command.SwReset, W] ++
+  cmdData Command.DriverOutputControl (driverOutputBytes true true true ((HEIGHT - 1) % 65536)) ++
+  cmdData Command.DataEntryModeSetting [DataEntryModeIncr.XIncrYIncr ||| DataEntryModeDir.XDir] ++
+  setRamArea 0 0 (WIDTH - 1) (HEIGHT - 1) ++
+  setRamAddressCounters 0 0 ++
+  cmdData Command.BorderWaveformControl
+    [borderWaveForm BorderWaveFormVbd.Gs BorderWaveFormFixLevel.Vss BorderWaveFormGs.Lut3] ++
+  cmdData Command.WriteVcomRegister [0x36] ++
+  cmdData Command.GateDrivingVoltageCtrl [0x17] ++
+  cmdData Command.SourceDrivingVoltageCtrl [0x41, 0x00, 0x32] ++
+  cmdData Command.DisplayUpdateControl1
+    (displayUpdateControlBytes RamOption.Normal RamOption.Normal true) ++
+  [W]
+
+def updateFrame (b : Bytes) : List Act :=
+  assertA (b.length = bufferLen) ++ cmdData Command.WriteRam b ++
+  [.cmd Command.WriteRamRed, .rep (byteValue 0) bufferLen]   -- TriColor::Black.get_byte_value()
+
+def displayFrame : List Act := [.cmd Command.MasterActivation, W]
+
+/-- `clear_achromatic_frame`: White 0xFF, Chromatic 0xFF, Black 0x00 -/
+def clearAchromatic (bg : Nat) : List Act :=
+  [.cmd Command.WriteRam, .rep (if bg = 0 then 0x00 else 0xFF) bufferLen]
+
+/-- `clear_chromatic_frame`: White 0x00, Chromatic 0xFF, Black 0x00 — sent with `WriteRam`
+    (not `WriteRamRed`), as the Rust does -/
+def clearChromatic (bg : Nat) : List Act :=
+  [.cmd Command.WriteRam, .rep (if bg = 2 then 0xFF else 0x00) bufferLen]
+
+def achro (b : Bytes) : List Act := [.cmd Command.WriteRam, .data b]
+def chro (c : Bytes) : List Act := [.cmd Command.WriteRamRed, .data c]
+
+def prog (_f : Feat) (d : DState) : Op → Option (List Act)
+  | .new => some init
+  | .wake => some init
+  | .sleep => some (cmdData Command.DeepSleepMode [DeepSleepMode.Normal])
+  | .upd b => some (updateFrame b)
+  | .part _ _ _ _ _ => some [.panic]
+  | .disp => some displayFrame
+  | .updisp b => some (updateFrame b ++ displayFrame)
+  | .clear => some (clearAchromatic d.bg ++ clearChromatic d.bg)
+  | .bg c => some [.upd (fun d => { d with bg := c })]
+  | .lut _ => some [.panic]
+  | .wait => some [W]
+  -- WaveshareThreeColorDisplay
+  | .color b c => some (achro b ++ chro c)
+  | .achro b => some (achro b)
+  | .chro c => some (chro c)
   | _ => none
 
 def panel (f : Feat) : Panel :=
